@@ -98,6 +98,28 @@ func c06fixed() []c06case {
 	out = append(out, c06case{Class: "blank-lines-32MiB", Stream: bytes.Repeat([]byte("\r\n"), 16<<20)})
 	out = append(out, c06case{Class: "blank-lines-32MiB", Stream: append(bytes.Repeat([]byte("\n"), 32<<20), []byte("*1\r\n$4\r\nPING\r\n")...)})
 	// wide arrays within 1 MiB
+	// many short bulk strings on one parser whose payloads add up to just below, exactly and just above a power of two
+	// (what a parser keeps from value to value - a block it carves short strings from, a pooled buffer - meets its end
+	// with a few bytes left), followed by a short bulk of every small size; valid streams, top level and as one array
+	for _, block := range []int{4096, 8192, 16384, 32768, 65536} {
+		unit := 256
+		if block == 65536 {
+			unit = 1024
+		}
+		for d := 0; d <= 6; d++ {
+			for last := 1; last <= 6; last++ {
+				var vs []resp.Value
+				for total := 0; total+unit <= block-unit; total += unit {
+					vs = append(vs, resp.Bulk(bytes.Repeat([]byte("a"), unit)))
+				}
+				vs = append(vs, resp.Bulk(bytes.Repeat([]byte("b"), unit-d)), resp.Bulk(bytes.Repeat([]byte("c"), last)), resp.BulkS("end"))
+				out = append(out, c06case{Class: "many-short-bulks", Stream: resp.EncodeAll(vs...)})
+				if block == 65536 || (d+last)%5 == 0 {
+					out = append(out, c06case{Class: "many-short-bulks", Stream: resp.Encode(resp.Array(vs...))})
+				}
+			}
+		}
+	}
 	out = append(out, c06case{Class: "wide", Stream: append([]byte("*200000\r\n"), bytes.Repeat([]byte(":1\r\n"), 200000)...)})
 	out = append(out, c06case{Class: "wide", Stream: append([]byte("*200001\r\n"), bytes.Repeat([]byte(":1\r\n"), 200000)...)})
 	out = append(out, c06case{Class: "wide", Stream: append([]byte("$1000000\r\n"), bytes.Repeat([]byte("x"), 1000000)...)})
@@ -335,7 +357,7 @@ func init() {
 	run.Register(&run.Prop{
 		ID: "C06", Level: "exploration",
 		Rule: func(tier string) string {
-			return "case = one hostile byte stream (<=1 MiB) read to its end with Parser.Next() over a scripted reader, in a child process under RLIMIT_AS=4GiB: every length/count prefix of 10 base streams replaced by each of 22 boundary digit strings; bomb headers at top level, inside a command and nested; truncation at every offset (whole and 1-byte delivery); every single byte; every string <=3 over the structural alphabet; nesting to 262000 levels; 200000-wide arrays; then seeded random stacked mutations of valid streams and a near-valid grammar; 6 (thorough: 120) fresh processes in which 16 goroutines, released together 256 times, each run their own parser over every possible first byte and over generated hostile streams (a runtime fatal error - concurrent map access in something the parsers share - cannot be recovered: the process must end with status 0); finally Go's native coverage-guided fuzzer (go test -fuzz, corpus seeded with 14 streams, budget counted in executions: 300000 quick / 30000000 thorough) with the same oracle. Oracle: no panic (recover), no process death (exit status), no array with absent elements, termination. distinct = hash of stream+chunking; non-trivial = the stream is not a single valid value"
+			return "case = one hostile byte stream (<=1 MiB) read to its end with Parser.Next() over a scripted reader, in a child process under RLIMIT_AS=4GiB: every length/count prefix of 10 base streams replaced by each of 22 boundary digit strings; bomb headers at top level, inside a command and nested; truncation at every offset (whole and 1-byte delivery); every single byte; every string <=3 over the structural alphabet; nesting to 262000 levels; 200000-wide arrays; sequences of short bulk strings whose payloads add up to a power of two (4 KiB..64 KiB) minus 0..6 bytes followed by a bulk of 1..6 bytes; then seeded random stacked mutations of valid streams and a near-valid grammar; 6 (thorough: 120) fresh processes in which 16 goroutines, released together 256 times, each run their own parser over every possible first byte and over generated hostile streams (a runtime fatal error - concurrent map access in something the parsers share - cannot be recovered: the process must end with status 0); finally Go's native coverage-guided fuzzer (go test -fuzz, corpus seeded with 14 streams, budget counted in executions: 300000 quick / 30000000 thorough) with the same oracle. Oracle: no panic (recover), no process death (exit status), no array with absent elements, termination. distinct = hash of stream+chunking; non-trivial = the stream is not a single valid value"
 		},
 		Assumptions: []string{"'never aborts the process' is decided for inputs <=1 MiB under a 4 GiB address-space limit"},
 		Setup: func(tier string, seed uint64) int {
